@@ -175,8 +175,10 @@ pub fn into_tokens(c: char, it: &mut Peekable<Chars>, state: &mut State) -> LexR
             // Position of the next character of the string in the source.
             let mut caret = state.pos.offset_pos(1);
 
+            let mut terminated = false;
             for c in it {
                 if !back_slash && build_cur_expr == 0 && c == '"' {
+                    terminated = true;
                     break;
                 }
                 string.push(c);
@@ -211,6 +213,11 @@ pub fn into_tokens(c: char, it: &mut Peekable<Chars>, state: &mut State) -> LexR
                 }
 
                 back_slash = c == '\\';
+            }
+
+            if !terminated {
+                let msg = "string is not terminated";
+                return Err(LexErr::new(state.pos, None, msg));
             }
 
             if string.starts_with("\"\"") && string.ends_with("\"\"") {
